@@ -42,4 +42,5 @@ mod verif_number {
             kani::cover!(negative && index > 3);
         }
     }
+
 }
